@@ -270,7 +270,34 @@ def check_restart(chk: Check, repo: Repo) -> None:
         chk.ob("cancelled-pause-is-not-left-in-the-slot", f.site(), ok and not foreign and not cancel_elsewhere, f"self.{slot}: {len(cancels)} cancel site(s) in the limiter, each followed by a reset of the slot before the coroutine ends ({ok}); other writers {foreign}; cancelled elsewhere {cancel_elsewhere}", key=f"restart|{slot}")
 
 
+def check_stop(chk: Check, repo: Repo) -> None:
+    """Stopping always returns and leaves the queue usable: (1) the stop sentinel is pushed only when a consumer is
+    running to take it (a sentinel left behind ends the consumer of the next start() at once); (2) XKNX.stop() stops
+    the producer of incoming telegrams (the interface) before the queue's consumer, so nothing is queued behind the
+    sentinel."""
+    f = repo.func(TQ, "TelegramQueue.stop")
+    chk.unit(f)
+    cfg = CFG(f.node)
+    mf = cfg.must_facts()
+    puts = [n for n in cfg.nodes if n.ast is not None and n.kind == "stmt" and any(call_name(c).endswith("telegrams.put_nowait") and c.args and isinstance(c.args[0], ast.Constant) and c.args[0].value is None for c in calls(n.ast))]
+    ok = len(puts) == 1
+    if ok:
+        facts = set(mf[puts[0].id])
+        running = (("self._consumer_task is None", False) in facts or ("self._consumer_task is not None", True) in facts or ("self._consumer_task", True) in facts) and ("self._consumer_task.done()", False) in facts
+        ok = running
+    chk.ob("stop-sentinel-only-for-a-running-consumer", f.site(), ok, "TelegramQueue.stop() pushes its None sentinel only where a consumer task exists and is not done" if ok else "TelegramQueue.stop() pushes its None sentinel although no consumer may be running (start() failed before it, or stop() called twice): the sentinel stays queued, the consumer of the next start() takes it and ends at once — nothing is sent any more and join()/stop() hang", key="stop|sentinel")
+    xs = repo.func("xknx.xknx", "XKNX.stop")
+    chk.unit(xs)
+    xcfg = CFG(xs.node)
+    def at(name: str) -> list[int]:
+        return [n.id for n in xcfg.nodes if n.ast is not None and n.kind == "stmt" and any(call_name(c) == name for c in calls(n.ast))]
+    iface, queue, join = at("self.knxip_interface.stop"), at("self.telegram_queue.stop"), at("self.join")
+    ok2 = len(iface) == 1 and len(queue) == 1 and len(join) == 1 and xcfg.dominates(join[0], iface[0]) and xcfg.dominates(iface[0], queue[0])
+    chk.ob("producer-stops-before-the-consumer", xs.site(), ok2, "XKNX.stop(): join() (drain), then the interface, then the telegram queue" if ok2 else "XKNX.stop() ends the queue's consumer before the interface that feeds it: a frame received meanwhile lands behind the stop sentinel and is never marked done (a later join()/stop() hangs)", key="stop|order")
+
+
 def run(chk: Check, repo: Repo) -> None:
+    check_stop(chk, repo)
     check_restart(chk, repo)
     check_consumer(chk, repo)
     check_limiter(chk, repo)
